@@ -437,8 +437,8 @@ PPL::Grid::max_min(const Linear_Expression& expr,
 
     const Grid_Generator& gen = gen_sys[0];
     Scalar_Products::homogeneous_assign(ext_n, expr, gen);
-    ext_n += expr.inhomogeneous_term();
     ext_d = gen.divisor();
+    ext_n += expr.inhomogeneous_term() * ext_d;
     // Reduce ext_n and ext_d.
     PPL_DIRTY_TEMP_COEFFICIENT(gcd);
     gcd_assign(gcd, ext_n, ext_d);
